@@ -20,6 +20,11 @@ def _publications(build):
         if not isinstance(st, (ast.Assign, ast.AugAssign, ast.AnnAssign)):
             continue
         tgts = st.targets if isinstance(st, ast.Assign) else [st.target]
+        # parallel assignment `old, self._compiled = self._compiled, True` raises the flag as well
+        if isinstance(st, ast.Assign) and len(tgts) == 1 and isinstance(tgts[0], ast.Tuple) and isinstance(st.value, ast.Tuple) and len(tgts[0].elts) == len(st.value.elts):
+            for t, v in zip(tgts[0].elts, st.value.elts):
+                if is_self_attr(t, "_compiled", selfname=rv) and isinstance(v, ast.Constant) and v.value is True:
+                    pubs["flag"].append(st)
         for t in tgts:
             if is_self_attr(t, "map", selfname=rv):
                 pubs["table"].append(st)
